@@ -19,6 +19,7 @@ DONE = {
  'C16': 'bSei token: per address the balance change equals the net of the Increase/Decrease messages sent first to the reward contract; reward side changes holder and total by exactly the amount',
  'C17': 'dispatcher: swap offer <= held and stSei-side share after swap (oracle price), DispatchRewards keeper = floor(balance x rate), everything forwarded, order; known finding: zero-coin sends',
  'C18': 'both tokens: instantiate (0..3 possibly repeated addresses) and every execute variant conserve sum(balances) = total_supply; mint/burn only hub; allowance limits and expiry; CheckSlashing on burns',
+ 'C19': 'hub UpdateGlobalIndex (0..3 delegations): one reward withdrawal per delegation, swap request with the booked totals, dispatch, only last_index_modification written; BondRewards raises only the stSei pool/rate and mints nothing; linked symbolic transaction hub -> distribution -> dispatcher (swap stub) -> reward contract: nothing left behind, holders gain the delivered amount within dust (known finding: zero-coin revert)',
  'C20': 'instantiate + every update message with independently optional fields: stored fee/threshold/keeper rate <= 1, fixed denominations, omitted fields unchanged',
  'C12': 'delegation / undelegation kernels: conservation, balance bounds, termination, error exactly when request > total',
 }
